@@ -299,7 +299,7 @@ def run(tier: str, rng: random.Random, proof_ok: bool) -> dict:
     classes = coq(ctx.ct.coq())
     for k in range(0, len(lines), per):
         chunk = lines[k:k + per]
-        path = os.path.join(GEN, f"cases_C15_{k // per}.v")
+        path = os.path.join(GEN, f"cases_C15_p{os.getpid()}_{k // per}.v")
         body = [HEADER, orc.coq(),
                 f"Definition env0 := mk_env {classes} [] oracle_tbl re_tbl email_tbl case_tbl.\n", "Goal True.\n"]
         for i, (lhs, rhs, _) in enumerate(chunk):
